@@ -196,6 +196,25 @@ def _scalar(ctx, fn, e: ast.AST, use: ast.AST, assume: Dict[str, bool]) -> Optio
         if t in assume:
             return _scalar(ctx, fn, e.body if assume[t] else e.orelse, use, assume)
         return None
+    if isinstance(e, ast.Name):
+        # a local that names one of the targets (`exit_target = synth_exit if needs_synth_exit else next(iter(exit_blocks))`,
+        # or the same as an if-statement): read through when exactly one of its definitions is consistent with the assumption
+        dv = _defs_values(ctx, fn, use, e.id)
+        if dv and all(d.stmt is not None and v is not None for d, v in dv):
+            live = []
+            decided = True
+            for d, v in dv:
+                gs = _guard_conditions(fn.node, d.stmt)
+                if any(t not in assume for t, _p in gs):
+                    decided = False
+                    break
+                if all(assume[t] == p for t, p in gs):
+                    live.append(v)
+            if decided and len(live) == 1:
+                v = live[0]
+                simple = isinstance(v, (ast.Name, ast.IfExp)) or (isinstance(v, ast.Call) and A.unparse(v).startswith("next(iter("))
+                if simple and not (isinstance(v, ast.Name) and v.id == e.id):
+                    return _scalar(ctx, fn, v, use, assume)
     return A.unparse(e)
 
 
@@ -441,6 +460,32 @@ def _va_assigned_on_all_paths(ctx, fn, actor: ast.Call, V: str) -> bool:
 
 
 _RL_CTX = None  # set by Gadget.__init__: the program in which callee names are resolved by role
+
+
+def _expand_target(fn, text: Optional[str], depth: int = 0) -> Optional[str]:
+    """a local that merely names a target (`t = A if c else B`, also as the two arms of an if-statement; `t = u`)
+    is written out, so that two spellings of the same target compare equal"""
+    if text is None or depth > 3 or not text.isidentifier():
+        return text
+    asg = [s_ for s_ in A.walk_no_nested(fn.node) if isinstance(s_, ast.Assign) and len(s_.targets) == 1 and isinstance(s_.targets[0], ast.Name) and s_.targets[0].id == text]
+    others = [n for n in A.walk_no_nested(fn.node) if isinstance(n, ast.Name) and n.id == text and isinstance(n.ctx, (ast.Store, ast.Del))]
+    if len(others) != len(asg) or text in {p.arg for p in fn.params}:
+        return text
+
+    def simple(v):
+        return isinstance(v, (ast.Name, ast.IfExp)) or (isinstance(v, ast.Call) and A.unparse(v).startswith("next(iter("))
+
+    if len(asg) == 1 and simple(asg[0].value) and not any(isinstance(a, (ast.For, ast.While)) for a in A.ancestors(asg[0])):
+        v = asg[0].value
+        if isinstance(v, ast.IfExp):
+            return f"{_expand_target(fn, A.unparse(v.body), depth + 1)} if {A.unparse(v.test)} else {_expand_target(fn, A.unparse(v.orelse), depth + 1)}"
+        return _expand_target(fn, A.unparse(v), depth + 1)
+    if len(asg) == 2:
+        pa, pb = A.parent(asg[0]), A.parent(asg[1])
+        if pa is pb and isinstance(pa, ast.If) and len(pa.body) == 1 and len(pa.orelse) == 1 and simple(asg[0].value) and simple(asg[1].value):
+            x, y = (asg[0], asg[1]) if asg[0] in pa.body else (asg[1], asg[0])
+            return f"{_expand_target(fn, A.unparse(x.value), depth + 1)} if {A.unparse(pa.test)} else {_expand_target(fn, A.unparse(y.value), depth + 1)}"
+    return text
 
 
 def _rl(e: ast.AST) -> Optional[Tuple[str, str]]:
@@ -974,7 +1019,7 @@ def ctrl9(ctx) -> List[Ob]:
         else:
             if rl1[0] != g.latch_tbl:
                 probs.append(f"{g.latch_var} is looked up in {rl1[0]}, not in the latch's table {g.latch_tbl}")
-            if rl1[1] != first_hop:
+            if _expand_target(fn, rl1[1]) != _expand_target(fn, first_hop):
                 probs.append(f"{g.latch_var} selects {rl1[1]}, but this {kind}-arc must leave the latch towards {first_hop}")
         second = stores.get(g.exit_var)
         for hv in g.head_vars:
